@@ -764,16 +764,41 @@ package fzf
 //@ effect call proc requires true
 //@ ensures r1 != nil ==> fresh(r1) && fresh(*r1) && len(*r1) > 0
 //@ ensures r1 != nil && r2 != nil ==> (*r1)[len(*r1)-1].offset[1] == nrunes(r0)
+//@ ensures len(r0) <= len(str) -- stripping never makes a line longer
 // (that all offsets are ordered and within the text was proved too, but one loop obligation needed 8-10 s of
 //  solver time - too close to the limit to be claimed - so the clause is not part of the contract)
 //@ loop 1
 //@   invariant 0 <= prevIdx && prevIdx <= idx && idx <= len(str) && fresh(offsets) && 0 <= runeCount && runeCount <= prevIdx
 //@   invariant runeCount == bcount(&output) && (state != nil ==> len(offsets) > 0) && (pstate == nil || fresh(pstate))
+//@   invariant blen(&output) <= prevIdx
 //@ func Item.AsString
 //@ property C07
 //@ pure
 //@ requires item != nil
 //@ ensures item.origText != nil && !stripAnsi ==> content_eq(bytesOf(result), *item.origText)
+
+// --ansi wiring: every input line goes through extractColor exactly once - also a line without any ESC byte, which
+// may still hold shift-in/out bytes or backspace overstrikes - and, with colours, the state returned for one line is
+// the state handed in for the next.
+//@ func Run closure @"prevLineAnsiState = lineAnsiState"
+//@ property C11
+//@ ghost nx int
+//@ ghost gin int
+//@ ghost gout int
+//@ ghost goff int
+//@ ghost @"trimmed, offsets, newState := extractColor(" nx = nx + 1
+//@ ghost @"trimmed, offsets, newState := extractColor(" gin = lineAnsiState
+//@ ghost @after"trimmed, offsets, newState := extractColor(" gout = newState
+//@ ghost @after"trimmed, offsets, newState := extractColor(" goff = offsets
+//@ requires len(data) < 2147483648
+//@ modifies lineAnsiState, prevLineAnsiState
+//@ ensures nx == 1 && gin == old(lineAnsiState) && prevLineAnsiState == old(lineAnsiState) && lineAnsiState == gout && r1 == goff
+//@ func Run closure @"trimmed, _, _ := extractColor(byteString(data), nil, nil)"
+//@ property C11
+//@ ghost nx int
+//@ ghost @"trimmed, _, _ := extractColor(" nx = nx + 1
+//@ requires len(data) < 2147483648
+//@ ensures nx == 1 && r1 == nil
 
 // Streaming filter mode (fzf -f QUERY without sorting): for every record read, the line is printed iff the
 // item satisfies the query, and what is printed is Item.AsString - the original line - not the display text.
